@@ -69,18 +69,22 @@ def effRollback (ks : KeyState) : KeyState :=
 def effPush (ks : KeyState) (l : Lock) (n : Nat) : KeyState :=
   { ks with lock := some { l with minCommit := n } }
 
-/-- the five things a handler can do to a key of T -/
+/-- what a request of another transaction may do to a key, as far as T is concerned -/
+structure OtherStep (ks ks' : KeyState) : Prop where
+  lk : ∀ l : Lock, l.ts = S → (ks'.lock = some l ↔ ks.lock = some l)
+  ws : ∀ w : WriteRec, w.startTs = S → (w ∈ ks'.writes ↔ w ∈ ks.writes)
+  uniq : ∀ w1 ∈ ks'.writes, ∀ w2 ∈ ks'.writes, w1.commitTs = w2.commitTs → w1 = w2
+  data : ks'.data S = ks.data S
+
+/-- the five things a handler can do to a key of T, and what others can do to it -/
 inductive KStep (m : Mut) (ks : KeyState) : KeyState → Prop
   | same : KStep m ks ks
   | lock (ttl : Nat) : NoRec S ks → KStep m ks (effLock S ttl m ks)
   | commit (l : Lock) : ks.lock = some l → l.ts = S → KStep m ks (effCommit ks l CV)
   | rollback : NoRec S ks → KStep m ks (effRollback S ks)
   | push (l : Lock) (n : Nat) : ks.lock = some l → l.ts = S → KStep m ks (effPush ks l n)
-  /-- another transaction locks the key (possible only while T holds no lock on it) -/
-  | foreign (l' : Lock) (d' : Nat → Option Nat) : ¬ HasL S ks → l'.ts ≠ S → d' S = ks.data S →
-      KStep m ks { lock := some l', writes := ks.writes, data := d' }
-  /-- another transaction (start ts `fts`, different from both of T's timestamps) is rolled back on the key -/
-  | foreignRb (fts : Nat) : fts ≠ S → fts ≠ CV → KStep m ks (effRollback fts ks)
+  /-- a request of another transaction: T's lock, T's records and T's value are untouched -/
+  | other (ks' : KeyState) : OtherStep S ks ks' → KStep m ks ks'
 
 variable {S CV}
 
@@ -173,38 +177,18 @@ theorem KInv.step {m : Mut} {ks ks' : KeyState} (ok : TsOK S CV m) (h : KInv S C
       subst hl'
       exact ⟨hk, hd, hn⟩
     · intro hc; exact h.cd hc
-  | foreign l' d' hnl hts hd =>
-    refine ⟨h.uniq, h.recs, h.one, ?_, ?_⟩
-    · intro l hl hl2
-      simp only [Option.some.injEq] at hl
-      subst hl
-      exact absurd hl2 hts
-    · intro hc; show d' S = m.dataVal; rw [hd]; exact h.cd hc
-  | foreignRb fts h1 h2 =>
-    have hmem : ∀ w, w ∈ (effRollback fts ks).writes ↔ w = ⟨fts, fts, .rollback⟩ ∨ (w ∈ ks.writes ∧ w.commitTs ≠ fts) := by
-      intro w; simp [effRollback, mem_setWrite]
-    have hdata : (effRollback fts ks).data S = ks.data S := by
-      simp [effRollback, setData, Ne.symm h1]
-    have old : ∀ w ∈ (effRollback fts ks).writes, w.startTs = S → w ∈ ks.writes := by
-      intro w hw hs
-      rcases (hmem w).1 hw with r | ⟨m1, _⟩
-      · subst r; exact absurd hs h1
-      · exact m1
-    refine ⟨?_, ?_, ?_, ?_, ?_⟩
-    · intro w1 hw1 w2 hw2 e
-      rcases (hmem w1).1 hw1 with r1 | ⟨m1, n1⟩ <;> rcases (hmem w2).1 hw2 with r2 | ⟨m2, n2⟩
-      · rw [r1, r2]
-      · subst r1; exact absurd e.symm n2
-      · subst r2; exact absurd e n1
-      · exact h.uniq w1 m1 w2 m2 e
-    · intro w hw hs; exact h.recs w (old w hw hs) hs
-    · intro w1 hw1 w2 hw2 s1 s2; exact h.one w1 (old w1 hw1 s1) w2 (old w2 hw2 s2) s1 s2
+  | other ks' o =>
+    have hC : HasC S ks' ↔ HasC S ks := by
+      constructor
+      · rintro ⟨w, hw, hs, hk⟩; exact ⟨w, (o.ws w hs).1 hw, hs, hk⟩
+      · rintro ⟨w, hw, hs, hk⟩; exact ⟨w, (o.ws w hs).2 hw, hs, hk⟩
+    refine ⟨o.uniq, ?_, ?_, ?_, ?_⟩
+    · intro w hw hs; exact h.recs w ((o.ws w hs).1 hw) hs
+    · intro w1 h1 w2 h2 s1 s2; exact h.one w1 ((o.ws w1 s1).1 h1) w2 ((o.ws w2 s2).1 h2) s1 s2
     · intro l hl hts
-      have hl0 : ks.lock = some l := (dropLock_some (show dropLock fts ks.lock = some l from hl)).1
-      obtain ⟨a, b, c⟩ := h.lk l hl0 hts
-      exact ⟨a, hdata.trans b, fun w hw hs => c w (old w hw hs) hs⟩
-    · rintro ⟨w, hw, hs, hk⟩
-      exact hdata.trans (h.cd ⟨w, old w hw hs, hs, hk⟩)
+      obtain ⟨a, b, c⟩ := h.lk l ((o.lk l hts).1 hl) hts
+      exact ⟨a, o.data.trans b, fun w hw hs => c w ((o.ws w hs).1 hw) hs⟩
+    · intro hc; exact o.data.trans (h.cd (hC.1 hc))
 
 /-- records of T are never lost, and a touched key stays touched -/
 structure KMono (S : Nat) (ks ks' : KeyState) : Prop where
@@ -237,36 +221,16 @@ theorem KStep.mono {m : Mut} {ks ks' : KeyState} (ok : TsOK S CV m) (h : KInv S 
   | push l n hl hts =>
     refine ⟨id, id, fun ht => ?_⟩
     exact Or.inl ⟨_, rfl, hts⟩
-  | foreign l' d' hnl hts hd =>
-    refine ⟨id, id, fun ht => ?_⟩
-    rcases ht with hl | hc | hr
-    · exact absurd hl hnl
-    · exact Or.inr (Or.inl hc)
-    · exact Or.inr (Or.inr hr)
-  | foreignRb fts h1 h2 =>
-    have keepC : HasC S ks → HasC S (effRollback fts ks) := by
-      rintro ⟨w, hw, hs, hk⟩
-      refine ⟨w, ?_, hs, hk⟩
-      simp only [effRollback, mem_setWrite]
-      refine Or.inr ⟨hw, ?_⟩
-      rcases h.recs w hw hs with rfl | rfl
-      · exact fun e => h1 e.symm
-      · exact fun e => h2 e.symm
-    have keepR : HasR S ks → HasR S (effRollback fts ks) := by
-      rintro ⟨w, hw, hs, hk⟩
-      refine ⟨w, ?_, hs, hk⟩
-      simp only [effRollback, mem_setWrite]
-      refine Or.inr ⟨hw, ?_⟩
-      rcases h.recs w hw hs with rfl | rfl
-      · exact fun e => h1 e.symm
-      · exact fun e => h2 e.symm
-    refine ⟨keepC, keepR, fun ht => ?_⟩
+  | other ks' o =>
+    have hC : HasC S ks → HasC S ks' := by
+      rintro ⟨w, hw, hs, hk⟩; exact ⟨w, (o.ws w hs).2 hw, hs, hk⟩
+    have hR : HasR S ks → HasR S ks' := by
+      rintro ⟨w, hw, hs, hk⟩; exact ⟨w, (o.ws w hs).2 hw, hs, hk⟩
+    refine ⟨hC, hR, fun ht => ?_⟩
     rcases ht with ⟨l, hl, hts⟩ | hc | hr
-    · refine Or.inl ⟨l, ?_, hts⟩
-      show dropLock fts ks.lock = some l
-      rw [hl]; exact dropLock_keep (by rw [hts]; exact Ne.symm h1)
-    · exact Or.inr (Or.inl (keepC hc))
-    · exact Or.inr (Or.inr (keepR hr))
+    · exact Or.inl ⟨l, (o.lk l hts).2 hl, hts⟩
+    · exact Or.inr (Or.inl (hC hc))
+    · exact Or.inr (Or.inr (hR hr))
 
 end
 
